@@ -175,6 +175,22 @@ Qed.
 Lemma built_tree_keys t : map e_key (built_tree t) = map fst (files t).
 Proof. unfold built_tree. rewrite map_map. reflexivity. Qed.
 
+Theorem stage_from_spec s0 path t :
+  wf_tree t ->
+  stage_from H s0 path (walk_of (rstrip_sep path) t) =
+  Ok {| sg_store := st_add (digestH H (built_tree t), as_bytes false (built_tree t))
+                      (st_add_all (objs_of (files t)) s0);
+        sg_oid := digestH H (built_tree t);
+        sg_tree := built_tree t;
+        sg_nfiles := N.of_nat (length (files t));
+        sg_size := total_size (files t) |}.
+Proof.
+  intros [Hd Hn Hnd]. unfold stage_from. rewrite build_dirs_spec by assumption. simpl.
+  assert (E : fold_left (fun t e => add e t) (map (idx_entry H) (files t)) [] = built_tree t).
+  { apply (tree_of_list_nodup (built_tree t)). now rewrite built_tree_keys. }
+  rewrite E. f_equal. f_equal. unfold built_tree. now rewrite map_length.
+Qed.
+
 Theorem stage_spec path t :
   wf_tree t ->
   stage H path (walk_of (rstrip_sep path) t) =
@@ -184,18 +200,15 @@ Theorem stage_spec path t :
         sg_tree := built_tree t;
         sg_nfiles := N.of_nat (length (files t));
         sg_size := total_size (files t) |}.
-Proof.
-  intros [Hd Hn Hnd]. unfold stage. rewrite build_dirs_spec by assumption. simpl.
-  assert (E : fold_left (fun t e => add e t) (map (idx_entry H) (files t)) [] = built_tree t).
-  { apply (tree_of_list_nodup (built_tree t)). now rewrite built_tree_keys. }
-  rewrite E. f_equal. f_equal. unfold built_tree. now rewrite map_length.
-Qed.
+Proof. apply stage_from_spec. Qed.
 
-Lemma stage_store_get t o :
+(* the store after the full transfer into s0 answers like "s0, then the objects in play" *)
+Lemma stage_store_get s0 t o :
   st_get o (st_add (digestH H (built_tree t), as_bytes false (built_tree t))
-              (st_add_all (objs_of (files t)) [])) = st_get o (in_play t).
+              (st_add_all (objs_of (files t)) s0)) = st_get o (s0 ++ in_play t).
 Proof.
-  rewrite st_get_add, st_get_add_all. simpl st_get at 2. unfold in_play. now rewrite st_get_app.
+  rewrite st_get_add, st_get_add_all. unfold in_play. rewrite !st_get_app.
+  destruct (st_get o s0); [reflexivity|]. destruct (st_get o (objs_of (files t))); reflexivity.
 Qed.
 
 (* ------------------------------------------------------------------ reload *)
@@ -325,13 +338,18 @@ Qed.
 
 (* ---- the theorems, for any digest *)
 
-Theorem reload_thm path t :
-  wf_tree t -> text_tree t -> digest_ok -> collision_free (in_play t) ->
-  exists sg, stage H path (walk_of (rstrip_sep path) t) = Ok sg /\
+Lemma in_play_tail s0 t x : In x (in_play t) -> In x (s0 ++ in_play t).
+Proof. intros Hi. apply in_or_app. now right. Qed.
+
+(* from any initial store s0 such that no two contents in play - those already in the store
+   included - share an object id *)
+Theorem reload_from_thm s0 path t :
+  wf_tree t -> text_tree t -> digest_ok -> collision_free (s0 ++ in_play t) ->
+  exists sg, stage_from H s0 path (walk_of (rstrip_sep path) t) = Ok sg /\
     sg_tree sg = built_tree t /\
     load (sg_store sg) (sg_oid sg) = Ok (map loaded_entry (sort_by file_leb (files t))).
 Proof.
-  intros Hwf Htx Hdig Hcf. eexists. split; [apply stage_spec; exact Hwf|]. simpl. split; [reflexivity|].
+  intros Hwf Htx Hdig Hcf. eexists. split; [apply stage_from_spec; exact Hwf|]. simpl. split; [reflexivity|].
   unfold load. rewrite stage_store_get.
   rewrite (st_get_in _ (as_bytes false (built_tree t)) _ Hcf).
   - unfold built_tree. rewrite reload_spec; try assumption.
@@ -339,25 +357,69 @@ Proof.
     + now apply files_keys_ok.
     + now apply files_text.
     + now destruct Hwf.
-  - unfold in_play. apply in_or_app. right. now left.
+  - apply in_play_tail. unfold in_play. apply in_or_app. right. now left.
 Qed.
+
+Theorem obj_from_thm s0 path t :
+  wf_tree t -> text_tree t -> digest_ok -> collision_free (s0 ++ in_play t) ->
+  exists sg, stage_from H s0 path (walk_of (rstrip_sep path) t) = Ok sg /\
+    checkout (sg_store sg) (sg_oid sg) = Ok (sort_by file_leb (files t)).
+Proof.
+  intros Hwf Htx Hdig Hcf.
+  destruct (reload_from_thm s0 path t Hwf Htx Hdig Hcf) as [sg [Hs [_ Hl]]].
+  exists sg. split; [exact Hs|]. unfold checkout. rewrite Hl.
+  rewrite stage_from_spec in Hs by exact Hwf. injection Hs as <-. simpl.
+  pose proof (sort_by_perm file_leb (files t)) as Hp.
+  rewrite (checkout_entries_spec _ _ []); [reflexivity| | |].
+  - intros kb Hi. rewrite stage_store_get. apply st_get_in; [exact Hcf|].
+    apply in_play_tail. apply in_play_file. eapply Permutation_in; [exact Hp|exact Hi].
+  - apply Forall_forall. intros kb Hi. pose proof (files_keys_ok t Hwf) as Hk.
+    rewrite Forall_forall in Hk. apply Hk. eapply Permutation_in; [exact Hp|exact Hi].
+  - simpl. eapply Permutation_NoDup; [|apply (wf_distinct t Hwf)]. apply Permutation_map. now symmetry.
+Qed.
+
+Theorem reload_thm path t :
+  wf_tree t -> text_tree t -> digest_ok -> collision_free (in_play t) ->
+  exists sg, stage H path (walk_of (rstrip_sep path) t) = Ok sg /\
+    sg_tree sg = built_tree t /\
+    load (sg_store sg) (sg_oid sg) = Ok (map loaded_entry (sort_by file_leb (files t))).
+Proof. apply (reload_from_thm []). Qed.
 
 Theorem obj_thm path t :
   wf_tree t -> text_tree t -> digest_ok -> collision_free (in_play t) ->
   exists sg, stage H path (walk_of (rstrip_sep path) t) = Ok sg /\
     checkout (sg_store sg) (sg_oid sg) = Ok (sort_by file_leb (files t)).
+Proof. apply (obj_from_thm []). Qed.
+
+(* the two pre-histories of the destination: the directory object alone was transferred first
+   (shallow), or a complete transfer lost some objects afterwards - both are sub-stores of what is in
+   play, so the full transfer completes them and the round trip is exact *)
+Lemma collision_free_sub s0 l :
+  (forall x, In x s0 -> In x l) -> collision_free l -> collision_free (s0 ++ l).
 Proof.
-  intros Hwf Htx Hdig Hcf.
-  destruct (reload_thm path t Hwf Htx Hdig Hcf) as [sg [Hs [_ Hl]]].
-  exists sg. split; [exact Hs|]. unfold checkout. rewrite Hl.
-  rewrite stage_spec in Hs by exact Hwf. injection Hs as <-. simpl.
-  pose proof (sort_by_perm file_leb (files t)) as Hp.
-  rewrite (checkout_entries_spec _ _ []); [reflexivity| | |].
-  - intros kb Hi. rewrite stage_store_get. apply st_get_in; [exact Hcf|].
-    apply in_play_file. eapply Permutation_in; [exact Hp|exact Hi].
-  - apply Forall_forall. intros kb Hi. pose proof (files_keys_ok t Hwf) as Hk.
-    rewrite Forall_forall in Hk. apply Hk. eapply Permutation_in; [exact Hp|exact Hi].
-  - simpl. eapply Permutation_NoDup; [|apply (wf_distinct t Hwf)]. apply Permutation_map. now symmetry.
+  intros Hsub Hc o b b' H1 H2. apply (Hc o).
+  - apply in_app_or in H1 as [H1|H1]; [now apply Hsub|exact H1].
+  - apply in_app_or in H2 as [H2|H2]; [now apply Hsub|exact H2].
+Qed.
+
+Theorem obj_healed_thm s0 path t :
+  wf_tree t -> text_tree t -> digest_ok -> collision_free (in_play t) ->
+  (forall x, In x s0 -> In x (in_play t)) ->
+  exists sg, stage_from H s0 path (walk_of (rstrip_sep path) t) = Ok sg /\
+    checkout (sg_store sg) (sg_oid sg) = Ok (sort_by file_leb (files t)).
+Proof.
+  intros Hwf Htx Hdig Hcf Hsub. apply obj_from_thm; try assumption. now apply collision_free_sub.
+Qed.
+
+Theorem shallow_store_spec path t :
+  wf_tree t ->
+  shallow_store H [] path (walk_of (rstrip_sep path) t) =
+  Ok [(digestH H (built_tree t), as_bytes false (built_tree t))].
+Proof.
+  intros [Hd Hn Hnd]. unfold shallow_store. rewrite build_dirs_spec by assumption. simpl.
+  assert (E : fold_left (fun t e => add e t) (map (idx_entry H) (files t)) [] = built_tree t).
+  { apply (tree_of_list_nodup (built_tree t)). now rewrite built_tree_keys. }
+  rewrite E. reflexivity.
 Qed.
 
 Theorem meta_thm path t :
@@ -564,3 +626,24 @@ Proof.
   split; [apply collision_freeb_sound; vm_compute; reflexivity|].
   vm_compute. split; reflexivity.
 Qed.
+
+(* the history hypotheses are satisfiable and the model runs on them: the directory object alone is
+   in the store first (shallow transfer), the full transfer then delivers the three files *)
+Example ex_tree_shallow_history :
+  match shallow_store md5_hex [] [47;115] (walk_of [47;115] ex_tree) with
+  | Ok s0 =>
+      match stage_from md5_hex s0 [47;115] (walk_of [47;115] ex_tree) with
+      | Ok sg => match checkout (sg_store sg) (sg_oid sg) with
+                 | Ok f => (length s0, length (sg_store sg), length f)
+                 | Err _ => (0, 0, 0)%nat
+                 end
+      | Err _ => (0, 0, 0)%nat
+      end
+  | Err _ => (0, 0, 0)%nat
+  end = (1, 3, 3)%nat.
+Proof. vm_compute. reflexivity. Qed.
+
+Example ex_tree_shallow_sub :
+  forall x, In x [(digestH md5_hex (built_tree md5_hex ex_tree), as_bytes false (built_tree md5_hex ex_tree))] ->
+            In x (in_play md5_hex ex_tree).
+Proof. intros x [<-|[]]. unfold in_play. apply in_or_app. right. now left. Qed.
